@@ -259,9 +259,25 @@ def private_build(d):
     return res["Effects"] and res["EffectsOk"], res["Effects"] and res["Eval"], log
 
 
+def spec_types():
+    """Go struct names the driver has generators (and a corpus case) for"""
+    import re
+    src = open(os.path.join(vf.HARNESS, "c17", "c17_specs_test.go")).read()
+    return sorted(set(re.findall(r'goType: "(\w+)"', src)))
+
+
 def gen_effects_table(rep):
     ok, msg, rows = regenerate()
     rep.notes.append(msg)
+    if ok and rows is not None:
+        have, want = set(spec_types()), {r["type"] for r in rows}
+        if have != want:
+            # not a violation of the property, but the streams do not cover what the table (and the theorems) cover
+            m2 = "COVERAGE GAP: mechanism types in the effect table without generators/corpus case in the driver: %s; " \
+                 "driver specs without table row: %s" % (sorted(want - have) or "-", sorted(have - want) or "-")
+            rep.notes.append(m2)
+            print("C17: " + m2)
+            return False, m2
     return ok, msg
 
 
@@ -477,15 +493,21 @@ P = {
         "eval_module": "Run.Eval_C17", "check_term": "check_race", "n_quick": 200, "n_thorough": 2400, "shard": 400,
         "findings": {}, "race": True, "escalate": False,
     }],
-    "rule": "stream variants: catalogue of 1-2 prototypes of one of the 19 mechanism types (weighted to those with maps/slices/endpoints) "
-            "loaded through the real NewMechanismFactory, a set of k<=4 rule-level overrides (valid, empty, malformed) created through the "
-            "real factory in ALL k! orders (one case per order), some variants of variants, interleaved with Execute / accessor calls on "
-            "every instance against in-memory identity-provider/API endpoints; observation after every operation = reflection deep-hash "
-            "per field of every instance (changes only) + behaviour digest; reference for 'catalogue + own overrides' = the same override "
-            "chain on a freshly loaded catalogue.  One fixed corpus case per mechanism type and the two C17-F1 witnesses run first. "
-            "Non-trivial = at least one accepted variant and one execution after it; distinct by hash of the generated input.  "
-            "stream race: the same contents, 16 goroutines executing prototype and variants while variants are created, under the race "
-            "detector, one child process per batch; observation = race reports / runtime crash / changed hashes.",
+    "rule": "stream variants: catalogue of 1-2 prototypes of one of the 19 mechanism types (weighted to those with maps/slices/endpoints; "
+            "one endpoint in eight answers 401/500; api_key in header/cookie/query, basic_auth) loaded through the real NewMechanismFactory, a set "
+            "of k<=4 rule-level overrides (valid, empty, malformed) created through the real factory in ALL k! orders (one case per order), some "
+            "variants of variants, interleaved with Execute / accessor calls on every instance against in-memory identity-provider/API endpoints, and "
+            "'rule A then rule B on ONE shared real cache' pairs.  Observation after every operation = reflection deep-hash per field of every "
+            "instance (changes only; fields that differ between two fresh loads are blanked) + behaviour digest (accessors, error kind, subject, "
+            "upstream headers/cookies, outputs, cache TTLs, requests sent); for the shared-cache pairs the outcome of B.  REFERENCE for 'catalogue + own "
+            "overrides': a second catalogue whose prototype is configured with merge(catalogue config, overrides) — built by the constructor, not by "
+            "WithConfig (merge rules: option replaces; assertions/values entry-wise; see c17Merge); only if that does not load, the same chain on a fresh "
+            "catalogue.  Shared-cache pairs are skipped for endpoints called with GET + body + http_cache (HTTP caches key by method+URL).  One fixed "
+            "corpus case per mechanism type and the two C17-F1 witnesses run first.  Non-trivial = at least one accepted variant and one execution after "
+            "it; distinct by hash of the generated input.  stream race: the same contents, 16 goroutines executing prototype and variants (half the cases "
+            "on a shared real cache) while variants are created and the registered key-store reload listeners (OnChanged) are fired, under the race "
+            "detector, child process per batch; observation = race reports / runtime crash (a crash that is neither a race nor a concurrent map access is "
+            "reported only if it repeats) / changed hashes.",
     "anchors": ["internal/rules/mechanisms/mechanism_factory.go", "internal/rules/mechanisms/mechanism_repository.go",
                 "internal/rules/mechanisms/oauth2/metadata_endpoint.go", "internal/rules/mechanisms/values/values.go",
                 "internal/rules/endpoint/endpoint.go",
@@ -499,8 +521,11 @@ P = {
                 "internal/rules/mechanisms/finalizers/oauth2_client_credentials_finalizer.go"],
     "trusted": [
         "soundness of the go/ssa effect extraction (harness/tools/effects): flow-insensitive taint analysis over static callees, "
-        "class-hierarchy-resolved interface calls and closures; calls into code outside the module that receive receiver-derived "
-        "pointers count as writes unless whitelisted with a written reason (list printed at the end of coq/Gen/Effects.v)",
+        "class-hierarchy-resolved interface calls and closures; taints: receiver-derived, package-level (module variables except sentinel "
+        "errors and funcs); calls into code outside the module with such arguments count as writes unless whitelisted with a written reason "
+        "(list printed at the end of coq/Gen/Effects.v); destination arguments of whitelisted callees (Unmarshal/Decode/errors.As/ReadFull/"
+        "Fprint/Append…) and in-place std generics always count; dependencies are loaded from export data in the quick tier",
+        "the merge rules of c17Merge (harness) as the implementation-independent meaning of 'catalogue configuration overlaid with own overrides'",
         "the store-of-cells abstraction: a mechanism is a record of field cells, WithConfig shares or replaces whole fields, a call's "
         "accesses are atomic reads/writes of cells (Go memory model: race = two conflicting unsynchronised accesses)",
         "reflection deep-hash: variables captured by closures and memory behind unsafe.Pointer are not visible; sync/atomic state, "
@@ -512,18 +537,24 @@ P = {
         "the driver is in package mechanisms and reaches NewMechanismFactory, mechanismsFactory and the config structs; a rename there breaks the driver, not the property",
     ],
     "level_text": "Proof (kernel-checked, no axioms) over a store-of-cells model that for EVERY effect table passing `forallb row_ok` and every "
-                  "interleaving of executions, accessor calls and WithConfig calls — any number, any order — no cell that existed is written "
-                  "(prototype and earlier variants unchanged), no two accesses conflict (race free), and every instance shows exactly its "
-                  "prototype's catalogue configuration overlaid with its own overrides, independent of history; instantiated with the effect "
-                  "table REGENERATED from the current source on every run (`Example effects_read_only` by vm_compute). Tied to the real "
-                  "mechanisms by ~800 (quick) / 12000 (thorough) deep-hash + behaviour histories in all creation orders and a 16-goroutine "
-                  "-race stream, covering all 19 mechanism types.",
-    "level_note": "PARTIAL: soundness of the SSA effect extraction is trusted (it over-approximates; unknown callees on receiver-derived "
-                  "pointers count as writes unless whitelisted with a reason). Trusted further: Coq kernel/vm_compute; the cell abstraction of "
-                  "Go memory; the correspondence harness (reflection deep-hash with the stated opaque types, in-memory endpoints, Gallina "
-                  "rendering); documented thread-safety of text/template, cel-go, go-jose. 'Own overrides' are taken from the same "
-                  "implementation in the minimal history (fresh catalogue, only this chain), so a WithConfig that decodes an option wrongly "
-                  "in every history is outside this property. Finding C17-F1 was repaired by fix: commit 13721c3; the pinned behaviour is "
-                  "documented by C17_F1_pinned_refuted.",
+                  "interleaving of executions, accessor calls and WithConfig calls no cell that existed is written, no two accesses conflict, and every "
+                  "instance shows its prototype's catalogue configuration overlaid with its own overrides, independent of history.  In that model a "
+                  "read-only table means no write step exists, so the theorems reduce the property to ONE fact about heimdall: `Example "
+                  "effects_read_only` over the effect table REGENERATED from the current source by a go/ssa taint analysis (destination-aware "
+                  "whitelist, package-level state, closures, std generics; self-tested on 47 seeded constructs).  What the model assumes about "
+                  "WithConfig (fresh cells for overridden fields, the rest shared) is CHECKED, not proved: ~800 (quick) / 12000 (thorough) histories "
+                  "on the real mechanisms in all creation orders compare every variant, field by field and in behaviour, with a prototype that the "
+                  "constructor builds from the merged configuration, and rule-B-after-rule-A on a shared cache with rule B alone; a 16-goroutine "
+                  "-race stream with key-store reloads covers all 19 mechanism types.",
+    "level_note": "PARTIAL: soundness of the SSA effect extraction is trusted (it over-approximates; callees outside the module that receive "
+                  "receiver-derived or package-level pointers count as writes unless whitelisted with a reason, and whitelisted callees still count "
+                  "for their destination arguments).  Not covered by table or model: writers outside the method set (goroutines started by "
+                  "constructors, OnChanged reload — the latter is exercised by the race stream only), the rule factory (the driver calls the "
+                  "mechanism factory the rule factory calls).  A correctly synchronised memo (sync.Once / mutex / atomic in a mechanism) is reported as a "
+                  "write: the check enforces 'immutable', not merely 'race free'.  Trusted further: Coq kernel/vm_compute; the cell abstraction of Go "
+                  "memory; the harness (reflection deep-hash with the stated opaque types and without closure captures / spare slice capacity; in-memory "
+                  "endpoints; the merge rules of c17Merge as transcription of the documented override semantics); documented thread-safety of "
+                  "text/template, cel-go, go-jose, strings.Replacer.  Finding C17-F1 was repaired by fix: commit 13721c3 "
+                  "(C17_F1_pinned_refuted documents the pinned behaviour, it says nothing about today's tree).",
     "technique": "generated effect summary (go/ssa) + invariant proof over interleavings + differential deep-hash/race correspondence",
 }
